@@ -128,9 +128,6 @@ package codegen
 //@ trusted github.com/99designs/gqlgen/graphql.GetErrors(ctx) (errs)
 //@   nopanic
 //@   pure
-// (Dispatch only runs closures registered through Concurrently; each of them is proved panic-free: object$closure)
-//@ trusted (*github.com/99designs/gqlgen/graphql.FieldSet).Dispatch(ctx)
-//@   nopanic
 //@ family deferredgroup [C13,C05,C04]
 //@   gosafe
 //@   at `send ec.deferredResults` requires val.Path == dg.Path && val.Label == dg.Label
